@@ -27,6 +27,8 @@ pub fn programs() -> Vec<Vec<&'static str>> {
         vec!["10 READ A:PRINT A;:READ A:PRINT A;", "20 DATA 1,2", "30 READ A"],
         vec!["10 DIM A(3):A(3)=A(3)+1:PRINT A(3);", "20 FOR I=1 TO 2:GOSUB 40:NEXT", "30 END", "40 PRINT I;:IF I=2 THEN STOP", "50 RETURN"],
         vec!["10 DEF FNA(X)=X+K:K=K+1:PRINT FNA(1);", "20 PRINT \"t\";:K=K*2:PRINT FNA(K);", "30 ERASE Z"],
+        // the call comes before the definition: after a reset it is undefined again
+        vec!["10 PRINT FNA(3);", "20 END", "30 DEF FNA(X)=X+1", "40 GOTO 10"],
     ]
 }
 
@@ -88,6 +90,7 @@ fn model(depth: usize, only_prog: Option<usize>) -> Model {
         "DATA 99",
         // the array touched last before a reset, with other bounds than the program's
         "DIM B(20):B(20)=3", "Q(7)=1",
+        "GOTO 30",
     ] {
         acts.push((l.to_string(), Act::Line(l)));
     }
@@ -273,7 +276,7 @@ impl Check for C12 {
     fn meta(&self, tier: Tier) -> Meta {
         Meta {
             bound: format!(
-                "12 programs (variables, arrays, DEFtype, DEF FN, DATA/RESTORE, FOR/GOSUB/WHILE, INPUT, STOP inside loops and subroutines, runtime errors) x all histories of up to {} actions from 31 (21 direct lines incl. assignments, DIM with other bounds than the program's, DEFINT/DEFSTR, READ, RESTORE, FOR, GOSUB into STOP, CLEAR, CONT, one that fails to compile, one that fails to link and a refused direct DATA; two edits of the listing; RUN interrupted after 3, 9, 20 instructions; RUN; CLEAR+probes; NEW+probes; NEW executed by a stored line at two places + probes), deduplicated by the full state digest",
+                "13 programs (variables, arrays, DEFtype, DEF FN also called before its definition, DATA/RESTORE, FOR/GOSUB/WHILE, INPUT, STOP inside loops and subroutines, runtime errors) x all histories of up to {} actions from 32 (22 direct lines incl. assignments, DIM with other bounds than the program's, DEFINT/DEFSTR, READ, RESTORE, FOR, GOSUB into STOP, CLEAR, CONT, one that fails to compile, one that fails to link and a refused direct DATA; two edits of the listing; RUN interrupted after 3, 9, 20 instructions; RUN; CLEAR+probes; NEW+probes; NEW executed by a stored line at two places + probes), deduplicated by the full state digest",
                 tier.pick(4, 6)
             ),
             rule: "a case is one transition; judged transitions are RUN (compared with RUN in a fresh interpreter holding the current listing) and CLEAR / NEW followed by 10 probe lines (compared with the probes in a fresh interpreter); distinct_nontrivial = distinct (program, fresh transcript)".into(),
